@@ -16,6 +16,13 @@ func c14Profiles(tier string) []Profile {
 	hist := &SeqProfile{Name: "flushes", Keys: keys, Depth: d, Init: initX, Mon: mon,
 		Letters: func(w *harness.World) []Letter {
 			ls := storeLetters(true, true)(w)
+			// the second collection may also be created under the reverse comparator
+			ls = append(ls, Letter{"SetColl(y,rev)", func(w *harness.World) {
+				if mc := w.M.Cur.Colls["y"]; mc == nil || len(mc.Items) <= 1 {
+					w.SetCollection("y", "rev")
+					w.SetItem("y", kB, 2, bs("yb"))
+				}
+			}})
 			if !w.Closed {
 				ls = append(ls, Letter{"CopyTo(orig,1)", func(w *harness.World) { w.CopyTo(-1, 1) }},
 					Letter{"CopyTo(orig,2)", func(w *harness.World) { w.CopyTo(-1, 2) }})
@@ -29,7 +36,7 @@ func c14Profiles(tier string) []Profile {
 		}
 		return k
 	}
-	names := []string{"x", "", "a b", `q"\`, "ü"}
+	names := []string{"x", "", "a b", `q"\`, "ü", "c\x01\x7f\t"}
 	klens := []int{1, 2, 255, 256, 65535}
 	vlens := []int{0, 1, 255, 65536, 70000}
 	var skeys [][]byte
@@ -66,7 +73,7 @@ func c14Profiles(tier string) []Profile {
 		}}
 	return []Profile{
 		hist.Profile(fmt.Sprintf("every history of length <= %d over the C02 store alphabet plus CopyTo(flushEvery 1,2); after every Flush and for every CopyTo destination an independent decoder of the documented v4 layout (shares no code with gkvlite) must accept every record, find children below their parents, recompute every persisted aggregate, reconstruct exactly the model's flushed state, and the bytes appended by the Flush must be tiled exactly by the item, node and root records reachable from the new root", d)),
-		sizes.Profile(fmt.Sprintf("every history of length <= %d over collection names {\"x\", \"\", \"a b\", q\"\\, u-umlaut} (including empty collections), key lengths {1,2,255,256,65535} x value lengths {0,1,255,65536,70000}, Flush, Reopen; same decoder oracle", ds)),
+		sizes.Profile(fmt.Sprintf("every history of length <= %d over collection names {\"x\", \"\", \"a b\", q\"\\, u-umlaut, a name with control characters 0x01 0x7f TAB} (including empty collections), key lengths {1,2,255,256,65535} x value lengths {0,1,255,65536,70000}, Flush, Reopen; same decoder oracle", ds)),
 	}
 }
 
